@@ -30,7 +30,7 @@ ASSUMPTIONS = ["the approved constants are those of vf/oracle/approved.py (copie
                "BillingModel uses the legacy daily profile"]
 REQUIRED_REACH = {"ctor.locked_rejected": 300, "ctor.developer_accepted": 150, "ctor.invalid_rejected": 100,
                   "ctor.nondeveloper_accepted": 40, "ctor.explicit_default_accepted": 100, "defaults.compared": 7, "defaults.compared_in_an_order": 60, "derived.settings_compared": 12,
-                  "validator.check_developer_mode.calls": 500, "stored.param_built": 20, "stored.fitted": 2, "stored.hourly_fit_with_settings_snapshot": 5, "stored.hourly_fit_used_a_supplemental_column": 2,
+                  "validator.check_developer_mode.calls": 500, "ctor.callers_settings_dict_compared": 1000, "stored.param_built": 20, "stored.fitted": 2, "stored.hourly_fit_with_settings_snapshot": 5, "stored.hourly_fit_used_a_supplemental_column": 2,
                   "hourly.valid_accepted": 50, "hourly.invalid_rejected": 70, "cross.judged": 30}
 EXHAUSTIVE = True
 
@@ -129,10 +129,26 @@ def walk_fields(cls, prefix=""):
 
 
 def try_build(fn, settings):
+    """builds; the caller's settings dict is the caller's: it is compared with a snapshot taken before the call, and a second construction
+    from the very same dict object (one config dict, one model per meter) must give the same settings"""
+    before = copy.deepcopy(settings) if isinstance(settings, dict) else None
     try:
-        return fn(settings), None
+        r, err = fn(settings), None
     except Exception as e:   # pydantic ValidationError / ValueError / TypeError
-        return None, e
+        r, err = None, e
+    if before is not None:
+        I.reach("ctor.callers_settings_dict_compared")
+        if settings != before:
+            add("constructor-modified-callers-settings-dict", "settings dict %r became %r during construction" % (before, settings))
+        elif r is not None:
+            try:
+                r2 = fn(settings)
+                d1, d2 = (getattr(x, "settings", x) for x in (r, r2))
+                if hasattr(d1, "model_dump") and norm(d1.model_dump()) != norm(d2.model_dump()):
+                    add("second-construction-from-the-same-dict-differs", "settings %r: the second construction gives other settings" % (before,))
+            except Exception as e2:
+                add("second-construction-from-the-same-dict-differs", "settings %r: the second construction raised %s" % (before, type(e2).__name__))
+    return r, err
 
 
 def daily_family(fam, spec, keys, hist):
@@ -383,6 +399,17 @@ def hourly_family(spec, keys, hist):
                         add("setting-not-stored", "hourly %s given as %r but stored as %r" % (k, v, d[k]), family="hourly")
                 if "seed" in st0 and (s._seed != st0["seed"] or s.elasticnet._seed != st0["seed"] or s.temporal_cluster._seed != st0["seed"]):
                     add("seed-not-propagated", "seed %r not propagated to elasticnet/clustering" % st0["seed"], family="hourly")
+    # feature lists through the dict entry of the model constructor (the caller's dict stays as it was; a second model from the same dict is the same)
+    for st0 in ({"train_features": ["temperature"]}, {"train_features": ["temperature", "ghi"]}, {"train_features": ["ghi", "temperature"], "seed": 4},
+                {"train_features": ["temperature"], "supplemental_time_series_columns": ["occupancy"]}, {"supplemental_categorical_columns": ["holiday"], "seed": 1}):
+        given = copy.deepcopy(st0)
+        s_, err = try_build(entries["model-dict"], given)
+        n += 1
+        I.reach("hourly.feature_lists_through_the_model_dict_entry")
+        if err is not None:
+            add("valid-hourly-setting-rejected", "%r rejected: %s" % (st0, str(err)[:200]), family="hourly", entry="model-dict", variant="lower")
+        elif "train_features" in st0 and sorted(s_.train_features or []) != sorted(st0["train_features"]):
+            add("setting-not-stored", "hourly train_features given as %r but stored as %r" % (st0["train_features"], s_.train_features), family="hourly")
     for st0 in A.HOURLY_INVALID:
         for ename, fn in entries.items():
             s, err = try_build(fn, copy.deepcopy(st0))
